@@ -129,7 +129,7 @@ PROPS = {
                 "multi-byte UTF-8), all 256 single bytes, long random texts; both build profiles; non-trivial = carries a non-empty text; distinct = distinct line",
     },
     "C05": {
-        "modules": ["BioSeq.Props.C05"],
+        "modules": ["BioSeq.Props.C05"] + ['BioSeq.Props.C05.DnaDebug', 'BioSeq.Props.C05.DnaRelease', 'BioSeq.Props.C05.TextDebug', 'BioSeq.Props.C05.TextRelease', 'BioSeq.Props.C05.DegDebug', 'BioSeq.Props.C05.DegRelease', 'BioSeq.Props.C05.IupacDebug', 'BioSeq.Props.C05.IupacRelease', 'BioSeq.Props.C05.AminoDebug', 'BioSeq.Props.C05.AminoRelease', 'BioSeq.Props.C05.MdnaDebug', 'BioSeq.Props.C05.MdnaRelease', 'BioSeq.Props.C05.MiupacDebug', 'BioSeq.Props.C05.MiupacRelease'],
         "witness": "Witness/C05.lean",
         "witness_modules": ["BioSeq.Checks.C05"],
         "exhaustive": True,
